@@ -462,6 +462,21 @@ static void gen_c18(uint64_t seed, uint64_t run, const std::string& tier, Plan& 
     if (m < 8) { Op& op = g.add("Eq"); op.a.push_back(g.slot()); std::string pa = g.r.chance(1, 2) ? "" : g.path(); op.s.push_back(pa); op.a.push_back(g.slot()); op.s.push_back(g.r.chance(2, 3) ? pa : g.path()); }
     else if (m < 9) { Op& op = g.add("CopyFrom"); op.a.push_back(g.slot()); op.s.push_back(""); op.a.push_back(g.slot()); op.s.push_back(""); op.a.push_back((int64_t)g.r.below(2)); }
     else if (m < 10) { Op& op = g.add("Serialize"); op.a.push_back(g.slot()); op.s.push_back(""); op.a.push_back(0); }
+    else if (m == 11 && g.r.chance(1, 2)) {
+      // a scalar written over a node that held a string / container a moment ago: == must not depend on that history
+      int sl = g.slot(); std::string pa = g.path();
+      if (pa.empty() && !g.r.chance(1, 6)) { pa += (char)g.r.below(256); }
+      if (g.r.chance(1, 2)) { Op& o1 = g.add("Build"); o1.a.push_back(sl); o1.s.push_back(pa); o1.a.push_back((int64_t)g.r.below(3)); o1.s.push_back(g.val(2)); }
+      else { Op& o1 = g.add("SetStr"); o1.a.push_back(sl); o1.s.push_back(pa); o1.a.push_back((int64_t)g.r.below(2)); o1.s.push_back(model::gen_string(g.r, g.go)); }
+      static const char* sk[] = {"SetInt", "SetInt", "SetUint", "SetDouble", "SetBool", "SetNull"};
+      std::string kn = sk[g.r.below(6)];
+      Op& o2 = g.add(kn.c_str()); o2.a.push_back(sl); o2.s.push_back(pa);
+      if (kn == "SetInt") o2.a.push_back(g.r.chance(1, 2) ? g.r.range(-1000, 1000) : (int64_t)g.r.next());
+      else if (kn == "SetUint") o2.a.push_back((int64_t)(g.r.chance(1, 2) ? g.r.below(100) : g.r.next()));
+      else if (kn == "SetDouble") o2.a.push_back((int64_t)model::gen_double_bits(g.r, false));
+      else if (kn == "SetBool") o2.a.push_back((int64_t)g.r.below(2));
+      Op& o3 = g.add("Eq"); o3.a.push_back(sl); o3.s.push_back(pa); o3.a.push_back(g.slot()); o3.s.push_back(g.r.chance(1, 2) ? pa : g.path());
+    }
     else g.mutation_op();
   }
 }
